@@ -920,7 +920,7 @@ pub fn run_tableau_case(case: &TableauCase) -> TableauRun {
     }
 
     // independent exact optimum of the initial tableau's own system
-    let lp_truth = if r0.c.len().saturating_sub(r0.a.len()) > 6 {
+    let lp_truth = if r0.c.len().saturating_sub(r0.a.len()) > 4 {
         None
     } else {
         let w = r0.c.len();
@@ -1190,9 +1190,9 @@ fn compose_with_improving_box(rng: &mut Rng, block: &TableauSource) -> TableauSo
 }
 
 fn gen_canonical(rng: &mut Rng) -> TableauSource {
-    let deep = rng.chance(1, 2);
-    let m = if deep { rng.usize(2, 4) } else { rng.usize(1, 4) };
-    let n = if deep { rng.usize(3, 5) } else { rng.usize(1, 5) };
+    let deep = rng.chance(3, 5);
+    let m = if deep { rng.usize(2, 5) } else { rng.usize(1, 4) };
+    let n = if deep { rng.usize(3, 6) } else { rng.usize(1, 5) };
     let w = n + m;
     // where the identity lives: last m columns, first m columns, or interleaved
     let mut cols: Vec<usize> = (0..w).collect();
@@ -1213,15 +1213,15 @@ fn gen_canonical(rng: &mut Rng) -> TableauSource {
         for j in &nonbasic {
             a[i][*j] = match rng.weighted(if deep { &[10, 70, 10, 10] } else { &[20, 50, 20, 10] }) {
                 0 => 0.0,
-                1 => rng.range(1, if small { 2 } else { 5 }) as f64,
-                2 => -(rng.range(1, if small { 2 } else { 5 }) as f64),
+                1 => rng.range(1, if small { 2 } else { 7 }) as f64,
+                2 => -(rng.range(1, if small { 2 } else { 7 }) as f64),
                 _ => rng.range(-4, 4) as f64 / 2.0,
             };
         }
         b[i] = if rng.chance(zero_rhs_pct, 100) {
             0.0
         } else {
-            rng.range(1, 8) as f64
+            rng.range(1, 12) as f64
         };
     }
     if shared_ratio && m >= 2 && !nonbasic.is_empty() {
@@ -1238,8 +1238,8 @@ fn gen_canonical(rng: &mut Rng) -> TableauSource {
     for j in &nonbasic {
         c[*j] = match rng.weighted(if deep { &[5, 85, 10] } else { &[15, 55, 30] }) {
             0 => 0.0,
-            1 => -(rng.range(1, 6) as f64),
-            _ => rng.range(1, 6) as f64,
+            1 => -(rng.range(1, 9) as f64),
+            _ => rng.range(1, 9) as f64,
         };
     }
     TableauSource::Canonical {
@@ -1252,8 +1252,8 @@ fn gen_canonical(rng: &mut Rng) -> TableauSource {
 }
 
 fn gen_phase1(rng: &mut Rng) -> TableauSource {
-    let m = rng.usize(1, 4);
-    let n = rng.usize(1, 5);
+    let m = rng.usize(1, 5);
+    let n = rng.usize(1, 6);
     let dependent = m >= 2 && rng.chance(1, 3);
     let feasible_pct = 70;
     let star: Vec<f64> = (0..n).map(|_| rng.range(0, 3) as f64).collect();
